@@ -66,11 +66,18 @@ def cfg_env(bcast, short, threads):
     return env
 
 
+def errlines(stderr, limit=600):
+    """the telling lines of a launch's stderr: assertions, MPI errors, signals (else its tail)"""
+    keys = ('Assertion', 'assert', 'MPI_ERR', 'Signal:', 'signal', 'fatal', 'Segmentation')
+    L = [x.strip() for x in stderr.splitlines() if any(k in x for k in keys)]
+    return (' | '.join(L) or ' | '.join(x for x in stderr.splitlines() if x.strip() and not x.startswith('---')))[-limit:]
+
+
 def cid(c):
     return '%d:%d:%d' % c
 
 
-def plan(V, vidx, n, bcast, only_p=None):
+def plan(V, vidx, n, bcast, only_p=None, only_e=None):
     """all cases (variant, placement, elems) of the launch, split into (normal, predicted): predicted = the propagation model
     loses an activation for that variant x placement under the topology"""
     normal, predicted = [], {}
@@ -82,6 +89,8 @@ def plan(V, vidx, n, bcast, only_p=None):
             owner = [(p // n ** i) % n for i in range(N)]
             lost, attributable, dup = ([], True, False) if n == 1 else gen.predict(bcast, n, owner, f, N, M, L)
             for e in ELEMS:
+                if only_e is not None and e not in only_e:
+                    continue
                 if lost or dup:
                     predicted[(vi, p, e)] = (lost, attributable, dup, owner)
                 else:
@@ -176,7 +185,7 @@ def run_box(ctx, box, launches_spec, jobs, deadline, case_timeout, launch_timeou
     queue = []       # (spec, cases, batch)
     predicted_all = []
     for s in launches_spec:
-        normal, predicted = plan(V, s['vidx'], s['n'], s['bcast'], s.get('only_p'))
+        normal, predicted = plan(V, s['vidx'], s['n'], s['bcast'], s.get('only_p'), s.get('only_e'))
         if normal:
             queue.append((s, normal, batch))
         for c, info in sorted(predicted.items()):
@@ -208,9 +217,9 @@ def run_box(ctx, box, launches_spec, jobs, deadline, case_timeout, launch_timeou
             box.ctx.broken.append('the propagation model predicts a lost activation but the real run passed: ' + what)
             return
         kid = KNOWN.get(m['bcast'])
-        sym = fails.get(c) or ('does not terminate / aborts (%s rc %s)' % (res.status, res.rc))
+        sym = fails.get(c) or ('does not terminate / aborts (%s rc %s: %s)' % (res.status, res.rc, errlines(res.stderr, 200)))
         if attributable and not dup and kid and known_entry(kid):
-            box.known.append('id=%s %s; observed: %s' % (kid, what, sym[:200]))
+            box.known.append('id=%s %s; observed: %s' % (kid, what, sym[:320]))
         else:
             msg = what + ' (NOT attributable to a listed known finding); observed: ' + sym
             box.violations.append((box.replay_obj(m, c, msg), msg))
@@ -249,11 +258,11 @@ def run_box(ctx, box, launches_spec, jobs, deadline, case_timeout, launch_timeou
                 box.violations.append((box.replay_obj(res.launch.meta, c, msg), msg))
             if stopped is not None:
                 k = cases.index(stopped)
-                why = 'launch %s (rc %s); stderr: %s' % (res.status, res.rc, res.stderr[-500:].replace('\n', ' | '))
+                why = 'launch %s (rc %s); stderr: %s' % (res.status, res.rc, errlines(res.stderr))
                 r0 = res.ranks.get(0, {})
                 box.transient.append('n=%d bcast=%s short=%s threads=%d batch of %d starting at %s stopped (%s rc %s, rank 0 stage %s); stderr: %s'
                                      % (s['n'], TOPO[s['bcast']], s['short'], s['threads'], b, describe(V, stopped, s['n']), res.status, res.rc, r0.get('stage'),
-                                        ' | '.join(x for x in res.stderr.splitlines() if x.strip() and not x.startswith('---'))[-700:]))
+                                        errlines(res.stderr, 700)))
                 if b == 1:
                     suspects.append((s, stopped, why))
                     if cases[k + 1:]:
@@ -275,7 +284,7 @@ def run_box(ctx, box, launches_spec, jobs, deadline, case_timeout, launch_timeou
             if fails:
                 box.violations.append((box.replay_obj(l.meta, c, fails[c]), fails[c]))
             elif stopped is not None or not res.ok():
-                msg = 'confirmed alone with 4x limits: %s does not terminate / aborts (%s rc %s); first seen: %s; stderr: %s' % (describe(V, c, s['n']), res.status, res.rc, why[:300], res.stderr[-400:].replace('\n', ' | '))
+                msg = 'confirmed alone with 4x limits: %s does not terminate / aborts (%s rc %s); first seen: %s; stderr: %s' % (describe(V, c, s['n']), res.status, res.rc, why[:300], errlines(res.stderr))
                 box.violations.append((box.replay_obj(l.meta, c, msg), msg))
             else:
                 box.unconfirmed.append('%s: %s' % (describe(V, c, s['n']), why[:300]))
@@ -305,21 +314,26 @@ def check(ctx):
     allv = list(range(len(V)))
     cfgs = list(itertools.product((0, 1, 2), (0, None), (1, 2)))
     if quick:
-        for t in (1, 2):        # one process: no message is ever sent, the communication settings are irrelevant
-            specs.append(dict(n=1, bcast=1, short=None, threads=t, vidx=allv))
+        # quick box (16 launches, one wave): n=1 once; n=2: every topology x short limit with 1 thread + a diagonal with 2 threads;
+        # the n=3 two-output reproducer (P(0)@0: X -> C1(1..2)@{1,2}, Y -> C2(2)@2): star and binomial as ordinary cases, chain where
+        # plan() finds the propagation model losing an activation (those run alone)
+        specs.append(dict(n=1, bcast=1, short=None, threads=2, vidx=allv))
         for b, s, t in cfgs:
-            specs.append(dict(n=2, bcast=b, short=s, threads=t, vidx=allv))
-        # the n = 3 two-output reproducer (P(0)@0: X -> C1(1..2)@{1,2}, Y -> C2(2)@2) under every configuration, as ordinary cases:
-        # plan() moves it to the predicted list exactly where the propagation model says an activation is lost
+            if t == 1 or (b, s) in ((0, 0), (1, None), (2, 0)):
+                specs.append(dict(n=2, bcast=b, short=s, threads=t, vidx=allv))
         vi = V.index(('twoout', 3, 2, 2))
-        specs += [dict(n=3, bcast=b, short=s, threads=t, vidx=[vi], only_p=[0 + 1 * 3 + 2 * 9]) for b, s, t in cfgs if t == 1 or (b, s) == (1, None)]
+        rp = [0 + 1 * 3 + 2 * 9]
+        specs += [dict(n=3, bcast=0, short=0, threads=1, vidx=[vi], only_p=rp), dict(n=3, bcast=0, short=None, threads=2, vidx=[vi], only_p=rp),
+                  dict(n=3, bcast=2, short=None, threads=1, vidx=[vi], only_p=rp),
+                  dict(n=3, bcast=1, short=0, threads=1, vidx=[vi], only_p=rp, only_e=[8]), dict(n=3, bcast=1, short=None, threads=1, vidx=[vi], only_p=rp),
+                  ]
     else:
         for n in (1, 2, 3, 4):
             for b, s, t in cfgs:
                 if n == 1 and (b, s) != (1, None):
                     continue            # one process: no message is ever sent, the communication settings are irrelevant
                 specs.append(dict(n=n, bcast=b, short=s, threads=t, vidx=allv))
-    run_box(ctx, box, specs, jobs=16, deadline=deadline, case_timeout=8 if quick else 10, launch_timeout=60 if quick else 600)
+    run_box(ctx, box, specs, jobs=16, deadline=deadline, case_timeout=8 if quick else 12, launch_timeout=60 if quick else 700, batch=16 if quick else 32)
     for obj, msg in box.violations[:8]:
         rp = ctx.write_replay('n%d-b%d-s%s-t%d-%s' % (obj['n'], obj['bcast'], obj['short'], obj['threads'], '_'.join(map(str, obj['case']))), obj)
         ctx.violation(rp, msg[:1500])
